@@ -59,7 +59,9 @@ def run_bindgen(path, flags, cargs, d, tag, env=None):
 
 
 def judge(name, accepted, rc, out, se, cmd, text, obs, nontrivial_key=None):
-    files = {"input": text if text is not None else "", "cmd.txt": " ".join(cmd), "stderr.txt": se[-4000:]}
+    hdr = [c for c in cmd if c.endswith((".h", ".hpp"))]
+    ext = os.path.splitext(hdr[0])[1] if hdr else ".h"
+    files = {"input" + ext: text if text is not None else "", "cmd.txt": " ".join(cmd), "stderr.txt": se[-4000:]}
     if rc is None:
         return Verdict(INCONCLUSIVE, name, "wall-clock watchdog", obs=obs)
     c = crashed(rc, se)
